@@ -4,6 +4,7 @@ import (
 	"context"
 	"encoding/json"
 	"fmt"
+	"os"
 	"sort"
 	"strings"
 
@@ -54,6 +55,8 @@ type c06Obs struct {
 	unpauses            int
 	coincide            bool
 	apiPauseAtHookCount int
+	lastStatus          string // the last status the responder put on the wire for the request
+	resumed             bool   // the unpause call was made and accepted
 }
 
 func c06Run(cfg vsched.Config, cs c06Case) (*c06Obs, *vsched.Sched) {
@@ -83,7 +86,7 @@ func c06Run(cfg vsched.Config, cs c06Case) (*c06Obs, *vsched.Sched) {
 				return harness.SendOK
 			}
 		}
-		if cs.Batch {
+		if cs.Batch || cs.Mode == "resp-hook-held" {
 			f.Net.SendFault = func(from, to peer.ID, k int, m gsmsg.GraphSyncMessage) harness.FaultAction {
 				if from == r.ID && k == 0 {
 					return harness.SendHold
@@ -105,7 +108,7 @@ func c06Run(cfg vsched.Config, cs c06Case) (*c06Obs, *vsched.Sched) {
 					ha.PauseRequest()
 				}
 			})
-		case "resp-hook":
+		case "resp-hook", "resp-hook-held":
 			r.GS.RegisterOutgoingBlockHook(func(p peer.ID, rd graphsync.RequestData, b graphsync.BlockData, ha graphsync.OutgoingBlockHookActions) {
 				nOut++
 				if nOut == cs.At && !hookPaused {
@@ -167,6 +170,12 @@ func c06Run(cfg vsched.Config, cs c06Case) (*c06Obs, *vsched.Sched) {
 		if cs.Batch {
 			released := false
 			evs = append([]*harness.Event{{Name: "release", Enabled: func() bool { return !released && f.Net.Held > 0 }, Do: func() { released = true; f.Net.ReleaseHeld() }}}, evs...)
+		}
+		if cs.Mode == "resp-hook-held" {
+			// the responder's first send stays stalled across the pause and the resume: the paused status and
+			// whatever follows the resume are queued behind it, in the same pending message
+			released := false
+			evs = append(evs, &harness.Event{Name: "release", Enabled: func() bool { return !released && f.Net.Held > 0 && (resumed || !hookPaused) }, Do: func() { released = true; f.Net.ReleaseHeld() }})
 		}
 		if cs.Mode == "req-both" {
 			// an API pause accepted just before the block at which the block hook also asks for a pause
@@ -247,6 +256,25 @@ func c06Run(cfg vsched.Config, cs c06Case) (*c06Obs, *vsched.Sched) {
 		o.closed = res.Closed()
 		o.store = strings.Join(qs.Keys(), ",")
 		o.nWire = len(f.Net.Wire)
+		o.resumed = resumed
+		for _, w := range f.Net.Wire {
+			if w.From == r.ID {
+				for _, rsp := range w.Msg.Responses() {
+					if rsp.RequestID() == id {
+						o.lastStatus = rsp.Status().String()
+					}
+				}
+			}
+		}
+		if os.Getenv("VERIF_VERBOSE") != "" {
+			for i, w := range f.Net.Wire {
+				var st []string
+				for _, rsp := range w.Msg.Responses() {
+					st = append(st, fmt.Sprintf("%s md=%d", rsp.Status(), rsp.Metadata().Length()))
+				}
+				fmt.Printf("wire %d from %s: %v blocks=%d\n", i, w.From, st, len(w.Msg.Blocks()))
+			}
+		}
 		f.Cancel()
 	})
 	if s.Panic != nil {
@@ -321,6 +349,9 @@ func c06Judge(cs c06Case, o *c06Obs) *core.Violation {
 	if strings.Join(o.missing, ";") != strings.Join(base.missing, ";") || strings.Join(o.otherErrs, ";") != strings.Join(base.otherErrs, ";") {
 		return v("errors-differ", fmt.Sprintf("errors %v, uninterrupted %v", append(o.missing, o.otherErrs...), append(base.missing, base.otherErrs...)))
 	}
+	if strings.HasPrefix(cs.Mode, "resp") && o.resumed && o.lastStatus != base.lastStatus {
+		return v("final-status-differs", fmt.Sprintf("the responder's last status on the wire is %s, uninterrupted %s", o.lastStatus, base.lastStatus))
+	}
 	if o.store != base.store {
 		return v("stored-blocks-differ", fmt.Sprintf("requestor store holds %d keys, uninterrupted %d", strings.Count(o.store, ",")+1, strings.Count(base.store, ",")+1))
 	}
@@ -370,7 +401,7 @@ func c06Cases(thorough bool) []c06Case {
 		}
 		for _, sn := range sels {
 			for _, sp := range splits {
-				for _, mode := range []string{"req-hook", "resp-hook", "resp-reqhook", "req-api", "resp-api", "resp-api-held", "req-both"} {
+				for _, mode := range []string{"req-hook", "resp-hook", "resp-hook-held", "resp-reqhook", "req-api", "resp-api", "resp-api-held", "req-both"} {
 					lo, hi := 1, n
 					if mode == "resp-reqhook" {
 						lo, hi = 1, 1
@@ -436,7 +467,7 @@ func runC06(c *core.Ctx) {
 
 func init() {
 	core.Register(&core.Prop{ID: "C06", Level: "model_checking",
-		Rule:        "shapes (N<=3 + a 4-chain; thorough N<=4 catalogue) x splits (responder holds the root, requestor lacks something, responder lacks <=1 block in quick) x selectors x pause by {requestor block hook, responder block hook at block 1..N, responder request hook, requestor API, requestor block hook and API for the same block, responder API after 0..4 deliveries, responder API while a send from index k on is stalled under a one-block allowance (the pause lands on whatever link comes next, present or missing)}; network gated: after every event (deliver next message on a link, pause call, unpause call) the two real instances run to quiescence; every order of events within the deviation bound from the natural order (deliver everything, resume last) is executed; a class is (pause kind, pause happened, number of events)",
+		Rule:        "shapes (N<=3 + a 4-chain; thorough N<=4 catalogue) x splits (responder holds the root, requestor lacks something, responder lacks <=1 block in quick) x selectors x pause by {requestor block hook, responder block hook at block 1..N (also with the responder's first send stalled across the pause and the resume), responder request hook, requestor API, requestor block hook and API for the same block, responder API after 0..4 deliveries, responder API while a send from index k on is stalled under a one-block allowance (the pause lands on whatever link comes next, present or missing)}; network gated: after every event (deliver next message on a link, pause call, unpause call) the two real instances run to quiescence; every order of events within the deviation bound from the natural order (deliver everything, resume last) is executed; a class is (pause kind, pause happened, number of events)",
 		Assumptions: []string{"differential oracle: the same configuration run uninterrupted (C02 ties that to the reference traversal)", "event-level interleavings (message granularity); schedules inside one event are the default", "an unpause that is refused because the pause has not taken effect yet is retried"},
 		Run:         runC06, QuickBudget: 300, ThoroughBudget: 2400,
 		Replay: func(raw json.RawMessage) string {
